@@ -250,6 +250,35 @@ fn ident(rng: &Rng) -> String {
 
 /// random tree of eligible files only (C03): names `<ident>.sol`, sub-directories at random positions
 pub fn gen_tree_eligible(rng: &Rng, pool: &Pool, depth: usize, max_files: usize, max_dirs: usize) -> Vec<Ent> {
+    // the text behind every `Twin.sol` of this tree
+    let twin = rng.pick(&pool.progs).1.clone();
+    gen_tree_eligible_in(rng, pool, depth, max_files, max_dirs, &twin)
+}
+
+/// byte-preserving edits that change findings (`>=` -> `> `, `++` -> `--`, ...): a text of the same length and the
+/// same line layout with other findings; None if no edit applies or the result does not parse
+pub fn same_length_edit(text: &str) -> Option<String> {
+    let edits: [(&str, &str); 8] = [(">=", "> "), ("<=", "< "), ("&&", "||"), (" * 2", " * 3"), (" / 4", " / 5"), ("++", "--"), ("== address(0)", "== address(1)"), ("transfer(", "transfeR(")];
+    let mut t = text.to_string();
+    let mut changed = false;
+    for (a, b) in edits.iter() {
+        if let Some(p) = t.find(a) {
+            t.replace_range(p..p + a.len(), b);
+            changed = true;
+        }
+    }
+    if changed && t.len() == text.len() && t != text && crate::dets::parses(&t) {
+        Some(t)
+    } else {
+        None
+    }
+}
+
+/// files that hold no definition at all (and no `{`): empty, white space only, a pragma, a comment, an import
+pub const MINIMAL_FILES: [&str; 8] =
+    ["", "\n\n\n", "   \n\t\n", "pragma solidity ^0.8.0;\n", "// SPDX-License-Identifier: MIT\n", "import \"./X.sol\";\n", "pragma solidity 0.7.6;\n\n\n", "/* nothing\n   here */\n"];
+
+fn gen_tree_eligible_in(rng: &Rng, pool: &Pool, depth: usize, max_files: usize, max_dirs: usize, twin: &str) -> Vec<Ent> {
     let mut ents: Vec<Ent> = vec![];
     let nf = rng.range(if depth == 0 { 1 } else { 0 }, max_files);
     let nd = if depth >= 4 { 0 } else { rng.range(0, max_dirs) };
@@ -295,6 +324,32 @@ pub fn gen_tree_eligible(rng: &Rng, pool: &Pool, depth: usize, max_files: usize,
             }
         }
     }
+    // namesakes of equal byte length and different line layout: `Twin.sol` is the tree's twin text with j empty
+    // lines in front and 3 - j behind
+    if rng.chance(1, 3) && used.insert("Twin.sol".to_string()) {
+        let j = rng.below(4) as usize;
+        // ... and, half of the time, with byte-preserving edits that change its findings
+        let body = if rng.chance(1, 2) { same_length_edit(twin).unwrap_or_else(|| twin.to_string()) } else { twin.to_string() };
+        let text = format!("{}{}{}", "\n".repeat(j), body, "\n".repeat(3 - j));
+        ents.push(Ent::File { name: "Twin.sol".to_string(), bytes: text.into_bytes() });
+    }
+    // files without any definition, listed among the others
+    if rng.chance(1, 4) {
+        let n = format!("Blank{}.sol", rng.below(4));
+        if used.insert(n.clone()) {
+            ents.push(Ent::File { name: n, bytes: rng.ps(&MINIMAL_FILES).as_bytes().to_vec() });
+        }
+    }
+    // `._<name>` next to `<name>` (eligible like any other `.sol` name)
+    if rng.chance(1, 8) {
+        if let Some(Ent::File { name, .. }) = ents.first() {
+            let n = format!("._{}", name);
+            if used.insert(n.clone()) {
+                let (_, text) = rng.pick(&pool.progs);
+                ents.push(Ent::File { name: n, bytes: text.clone().into_bytes() });
+            }
+        }
+    }
     // clearly ineligible files with parseable, finding-rich content (they must simply be skipped)
     if rng.chance(1, 4) {
         for n in ["README.md", "Helper.t.sol", "notes.txt", "Old.sol.bak"] {
@@ -307,7 +362,7 @@ pub fn gen_tree_eligible(rng: &Rng, pool: &Pool, depth: usize, max_files: usize,
     for _ in 0..nd {
         let n = if rng.chance(1, 8) { format!("{}.sol", ident(rng)) } else { ident(rng) };
         if used.insert(n.clone()) {
-            ents.push(Ent::Dir { name: n, kids: gen_tree_eligible(rng, pool, depth + 1, max_files.min(4), max_dirs.min(2)) });
+            ents.push(Ent::Dir { name: n, kids: gen_tree_eligible_in(rng, pool, depth + 1, max_files.min(4), max_dirs.min(2), twin) });
         }
     }
     rng.shuffle(&mut ents);
